@@ -223,7 +223,11 @@ class Corr:
     def run(self):
         if not self.lines:
             return
-        out = common.run_driver(self.lines)
+        try:
+            out = common.run_driver(self.lines)
+        except common.ModelUnavailable as ex:        # the regenerated model does not build: reported by run(), not a crash
+            self.broken.append(('model-unavailable', 'all', None, str(ex)[:300], {}))
+            return
         for line, (kind, key, code, scale, info), o in zip(self.lines, self.meta, out):
             self.rep.case(kind, key, sample=dict(kind=kind, key=str(key), code=code, model=o[:40]) if len(
                 [s for s in self.rep.coverage['samples'] if isinstance(s, dict) and s.get('stream') == kind]) < 2 else None)
